@@ -22,6 +22,8 @@ FRAGMENTS = [
     ("Moments", "gen_moments"),
     ("KickApply", "gen_kickapply"),
     ("UpdateSM", "gen_updatesm"),
+    ("StepParams", "gen_params"),
+    ("EFIndex", "gen_ef"),
 ]
 
 
